@@ -173,6 +173,16 @@ class StrLang:
                     trans[(q, c)] = s_
             here = DFA(self.alpha.n, lang.start, set(lang.acc), trans, lang.n)
             return self.lift(minimise(here), view[2])
+        if kind in ("rmprefix", "rmsuffix"):
+            # x.removeprefix(p) in lang  <=>  x = p.y with y in lang, or x does not start with p and x in lang
+            p_ = L.literal(view[1])
+            if kind == "rmprefix":
+                has = L.concat(p_, L.SIGMA_STAR)
+                here = union(L.concat(p_, lang), inter(complement(has), lang))
+            else:
+                has = L.concat(L.SIGMA_STAR, p_)
+                here = union(L.concat(lang, p_), inter(complement(has), lang))
+            return self.lift(minimise(here), view[2])
         if kind == "lit":
             # a literal string: the test does not depend on the parameter at all
             return L.SIGMA_STAR if lang.accepts([self.alpha.cls_of(ch) for ch in view[1]]) else L.EMPTY
@@ -365,6 +375,15 @@ class StrLang:
                     continue
                 if isinstance(tgt, ast.Name) and isinstance(v, ast.Name) and v.id in views:
                     views[tgt.id] = views[v.id]
+                    continue
+                if isinstance(tgt, ast.Name) and isinstance(v, ast.IfExp):
+                    try:
+                        views[tgt.id] = self._view_of(v, views)
+                        continue
+                    except Unsupported:
+                        pass
+                if isinstance(tgt, ast.Name) and isinstance(v, ast.Call) and isinstance(v.func, ast.Attribute) and v.func.attr in ("removeprefix", "removesuffix") and len(v.args) == 1:
+                    views[tgt.id] = self._view_of(v, views)
                     continue
                 if isinstance(tgt, ast.Name) and isinstance(v, ast.Call) and isinstance(v.func, ast.Attribute) and v.func.attr in ("casefold", "lower", "upper") and not v.args:
                     try:
@@ -580,6 +599,11 @@ class StrLang:
             if e.func.attr not in self.fold_kinds:
                 raise Unsupported(f"str.{e.func.attr}() view without a fold-uniform alphabet")
             return ("fold", e.func.attr, self._view_of(e.func.value, views))
+        if isinstance(e, ast.IfExp):
+            # a if c else b: seen through a where c holds, through b elsewhere
+            return ("cond", self._truth(e.test, views), self._view_of(e.body, views), self._view_of(e.orelse, views))
+        if isinstance(e, ast.Call) and isinstance(e.func, ast.Attribute) and e.func.attr in ("removeprefix", "removesuffix") and len(e.args) == 1 and not e.keywords:
+            return ("rmprefix" if e.func.attr == "removeprefix" else "rmsuffix", self._const_str(e.args[0]), self._view_of(e.func.value, views))
         if isinstance(e, ast.Name) and e.id in views:
             if views[e.id][0] in ("truth", "idx", "idxafter", "posconst", "charflags"):
                 raise Unsupported(f"`{e.id}` is not a string")
